@@ -409,3 +409,88 @@ extern "C" void h_conv() {
     vf_witness();
 }
 #endif
+
+#if C18_PART == 4
+// ================================================================= resolution on another thread, landing inside the registration
+// The source future is pending when the adapter is registered; the resolving thread's whole operation (set value / exception / drop) is
+// injected in front of the k-th atomic instruction the registration executes (vf_ainject_arm), k = 1..K, or happens after the registration.
+// Same oracle as the sequential half: the completion runs exactly once with exactly the operation's outcome, helper blocks are released.
+namespace mt {
+promise<int> *g_p; int g_outcome, g_v; std::exception_ptr *g_e; int g_early;
+void resolver() {
+    if (!*g_p) { g_early = 1; return; }         // the operation has not been started yet: the other thread has nothing to resolve (it acts later)
+    resolve(*g_p, g_outcome, g_v, *g_e);
+}
+struct CbFn {
+    Rec *r;
+    void operator()(await_result<int> res) {
+        ++r->count;
+        try { r->val = *res; r->state = S_VALUE; } catch (const vf_tag_exc &e) { r->state = S_TAG; r->val = e.tag; }
+        catch (const await_canceled_exception &) { r->state = S_CANCELED; }
+        catch (...) { r->state = S_OTHER; }
+    }
+};
+struct Owner {
+    Rec rec;
+    suspend_point<void> done(future<int> &f) noexcept { ++rec.count; VF_ASSERT(f.ready(), "C18 call_fn_future_awaiter: the member function sees a resolved future"); record_future(rec, f); return {}; }
+    call_fn_future_awaiter<&Owner::done> aw{*this};
+};
+struct Conv {
+    int k = 0, calls = 0;
+    int m_val(int &x) { ++calls; return x + k; }
+    suspend_point<void> m_prom(int &x, promise<int> &p) { ++calls; return p(x + k); }
+    future_conv<&Conv::m_val> c0{this};
+    future_conv<&Conv::m_prom> c2{this};
+};
+}
+
+extern "C" void h_adapt_mt() {
+    using namespace mt;
+    const int adapter = vf_choice(6);    // 0 callback_await (existing future), 1 callback_await (future-returning function), 2 call_fn_future_awaiter, 3 future_conv To(C::*)(From&),
+                                         // 4 future_conv suspend_point (C::*)(From&, promise<To>&), 5 discard
+    const int outcome = vf_choice(3);
+    const int k = 1 + vf_choice(12);
+    const int v = nondet_int() & 0xffff;
+    const int kk = nondet_int() & 0xffff;
+    const int tag = nondet_uchar();
+    std::exception_ptr exc = vf_make_exc(tag);
+    vf_warmup();
+    const long base = vf_live_allocs();
+    vf_probe_counts pc;
+    {
+        promise<int> p;
+        g_p = &p; g_outcome = outcome; g_v = v; g_e = &exc; g_early = 0;
+        Rec rec; int calls = 1;
+        future<int> f, out;
+        Owner o;
+        Conv cv; cv.k = kk;
+        auto src = [&]() -> future<int> { return future<int>([&](promise<int> pr) { p = std::move(pr); }); };
+        if (adapter == 0) p = f.get_promise();
+        vf_ainject_arm(&resolver, k);
+        switch (adapter) {
+        case 0: callback_await<future<int> &>(CbFn{&rec}, f); break;
+        case 1: callback_await<future<int> >(CbFn{&rec}, src); break;
+        case 2: o.aw << src; break;
+        case 3: out << [&] { return cv.c0 << src; }; break;
+        case 4: out << [&] { return cv.c2 << src; }; break;
+        default: discard(src); break;
+        }
+        if (vf_ainject_pending() || g_early) { vf_ainject_disarm(); resolve(p, outcome, v, exc); }     // the other thread acts after the registration returned
+        vf_out(vf_ainject_events());
+        if (adapter == 2) rec = o.rec;
+        if (adapter == 3 || adapter == 4) {
+            VF_ASSERT(out.ready(), "C18 the outer future is resolved once the source is resolved");
+            record_future(rec, out);
+            if (outcome == O_VALUE) { VF_ASSERT(cv.calls == 1, "C18 the converter runs exactly once"); VF_ASSERT(rec.state == S_VALUE && rec.val == v + kk, "C18 the outer future receives exactly the converted value"); }
+            else { VF_ASSERT(cv.calls == 0, "C18 the converter does not run without a source value"); expect(rec, outcome, 0, tag); }
+        } else if (adapter != 5) {
+            VF_ASSERT(rec.count == 1, "C18 the completion runs exactly once");
+            expect(rec, outcome, v, tag);
+        }
+        vf_out(rec.state); vf_out(rec.val & 0xffff);
+    }
+    VF_ASSERT(vf_live_allocs() == base, "C18 the helper's heap block is released (exactly once: a second release is a double free)");
+    vf_choice_end();
+    vf_witness();
+}
+#endif
